@@ -98,6 +98,11 @@ def run_shard(rec, tier, seed, shard, nshards):
             )
             tm = tuple(np.array(a, copy=True) for a in s.treatment_mapping)
             sm = tuple(np.array(a, copy=True) for a in s.sample_mapping)
+            if rng.random() < 0.5:
+                # fixed-width unicode name arrays: what Screen.load_h5 / ExperimentSpace.load_h5 hand back
+                tm = (tm[0].astype(str), tm[1], tm[2])
+                sm = (sm[0].astype(str), sm[1])
+                rec.count("superset_fixed_width_mappings")
             try:
                 s2 = Screen(treatment_mapping=tm, sample_mapping=sm, **kw2)
             except Exception as e:
@@ -118,7 +123,29 @@ def run_shard(rec, tier, seed, shard, nshards):
             ids2 = np.asarray(s2.treatment_ids)
             mids = np.asarray(tm[2])
             used = set(int(x) for x in ids2.ravel().tolist())
-            mode = int(rng.integers(0, 4))
+            mode = int(rng.integers(0, 6))
+            if mode >= 4:
+                # a name the mapping does not list - in particular one that EXTENDS a listed name, so that it would
+                # match after truncation to the mapping's string width - must be rejected
+                kw3 = {k: (v.copy() if isinstance(v, np.ndarray) else v) for k, v in kw2.items()}
+                if mode == 4:
+                    base = str(rng.choice(kw3["sample_names"]))
+                    new = base + str(rng.choice(["0", "x", " ", "_long_suffix"]))
+                    if new not in set(str(x) for x in sm[0]):
+                        arr = kw3["sample_names"].astype(object)
+                        arr[int(rng.integers(len(arr)))] = new
+                        kw3["sample_names"] = arr.astype(str)
+                        expect_reject(rec, Screen, kw3, dict(treatment_mapping=tm, sample_mapping=sm), "C01/sample-mapping/uncovering-accepted", "sample %r is not listed by the supplied mapping (which lists %r) but was accepted" % (new, base))
+                else:
+                    i, a = int(rng.integers(kw3["treatment_names"].shape[0])), int(rng.integers(kw3["treatment_names"].shape[1]))
+                    base = str(kw3["treatment_names"][i, a])
+                    new = base + str(rng.choice(["0", "x", " ", "_long_suffix"]))
+                    if new not in set(str(x) for x in tm[0]) and new != kw3["control_treatment_name"]:
+                        arr = kw3["treatment_names"].astype(object)
+                        arr[i, a] = new
+                        kw3["treatment_names"] = arr.astype(str)
+                        if float(kw3["treatment_doses"][i, a]) > 0 or True:
+                            expect_reject(rec, Screen, kw3, dict(treatment_mapping=tm, sample_mapping=sm), "C01/mapping/uncovering-accepted", "treatment %r is not listed by the supplied mapping (which lists %r) but was accepted" % (new, base))
             if mode == 0:
                 # remove one used row (mapping no longer covers the data)
                 cand = [r for r in range(len(mids)) if int(mids[r]) in used and (int(mids[r]) != -1 or _pair_used(tm, r, kw2))]
